@@ -116,7 +116,7 @@ def bound_sweep(ctx):
     L = lz.L()
     chains = ["lzma2", "delta", "x86", "arm64delta"]
     events = []
-    big_budget = 40 if ctx.quick else 10 ** 9
+    big_budget = 12 if ctx.quick else 10 ** 9
     rng.shuffle(plans)
     datacache = {}
     t0 = time.time()
@@ -130,7 +130,7 @@ def bound_sweep(ctx):
             continue
         kind = p["kind"]
         chain = "lzma2" if kind == "easy" else chains[pi % 4]
-        dk = "rand" if pi % 4 != 3 else ("text" if pi % 8 == 3 else "mixed")
+        dk = "rand" if (pi % 4 != 3 or (ctx.quick and n > 300000)) else ("text" if pi % 8 == 3 else "mixed")
         key = (dk, n)
         if key not in datacache:
             if len(datacache) > 6:
@@ -201,7 +201,7 @@ def run(ctx):
         j["mode"] = "agg"
     order = sorted(range(len(jobs)), key=lambda k: -jobs[k]["inp"]["n"])
     t = time.time()
-    results = cases.run_all([jobs[k] for k in order], procs=4 if ctx.quick else 6)
+    results = cases.run_all([jobs[k] for k in order], procs=4 if ctx.quick else 6, workdir=ctx.workdir)
     ctx.log("executed %d cases in %.1fs" % (len(results), time.time() - t))
     files, l2 = [], []
     for r in results:
